@@ -1006,7 +1006,9 @@ def main():
             text = fn(repo, report)
             changed = write_if_changed(os.path.join(outdir, fname), text)
             report['files'][fname] = {'changed': changed, 'sha256_16': hashlib.sha256(text.encode()).hexdigest()[:16]}
-        except Unsupported as e:
+        except Exception as e:      # Unsupported, or the source no longer has the shape a pattern walks through
+            if not isinstance(e, Unsupported):
+                e = Unsupported(f'{type(e).__name__} inside the translator (the source lost a definition it reads): {e}')
             ok = False
             report['failures'].append({'file': fname, 'error': str(e)})
             # leave a file that does not compile, so no stale translation can be used by accident
